@@ -7,11 +7,13 @@
 (*                     raw, parsed fully escaped, and built.               *)
 (*  MODE = "lookup"  : strings near the seven type names -> from_str.      *)
 (*  MODE = "combined": combined names over {a b / :} x seven types.        *)
+(*  MODE = "typestr" : type strings over {g B T 1 . + - ! , e-acute} for   *)
+(*                     the four generic type parameters (C13).             *)
 (***************************************************************************)
 EXTENDS PurlGrammar, PurlBuilder, Json, TLCExt
 CONSTANTS MODE, L
 
-NameAlpha == <<97, 65, 49, 45, 95, 46, 198, 453>>
+NameAlpha == <<97, 65, 49, 45, 95, 46, 198, 453, 931, 233>>      \* a A 1 - _ . AE Dz(titlecase) Sigma e-acute
 CombAlpha == <<97, 98, 47, 58>>
 TypesN == <<PYPI, NUGET, CARGO, NPM, MAVEN>>
 AllTypes == <<CARGO, GEM, GOLANG, MAVEN, NPM, NUGET, PYPI>>
@@ -40,8 +42,9 @@ LookupUniverse ==
 
 VARIABLES w, t, done
 vars == <<w, t, done>>
-Alpha == IF MODE = "combined" THEN CombAlpha ELSE NameAlpha
-TypeSeq == IF MODE = "combined" THEN AllTypes ELSE TypesN
+TypeAlpha == <<103, 66, 84, 49, 46, 43, 45, 33, 44, 233>>
+Alpha == IF MODE = "combined" THEN CombAlpha ELSE IF MODE = "typestr" THEN TypeAlpha ELSE NameAlpha
+TypeSeq == IF MODE = "combined" THEN AllTypes ELSE IF MODE = "typestr" THEN <<CARGO>> ELSE TypesN
 Init == IF MODE = "lookup" THEN w \in LookupUniverse /\ t = 1 /\ done = TRUE
         ELSE w = <<>> /\ t \in 1..Len(TypeSeq) /\ done = FALSE
 Next == /\ MODE # "lookup" /\ Len(w) < L
@@ -95,6 +98,14 @@ C18_Split == MODE = "combined" =>
 \* inverse law: for a built value satisfying the side condition, the constructor reproduces ns and name
 C18_Inverse == (MODE = "combined" /\ CombB.ok /\ CombinedInvertible(CombB.v)) =>
      LET s2 == SplitCombined(Ty, JoinCombined(CombB.v)) IN s2.ns = CombB.v.ns /\ s2.name = CombB.v.name
+
+\* ---- type strings (C13): the separately transcribed finish implementations coincide
+TsParts == [NoParts EXCEPT !.name = <<110>>]
+C13_Finish == MODE = "typestr" => FinishString(w) = FinishCowBorrowed(w)
+EmitTypeStr == MODE = "typestr" =>
+   PrintT(<<"CASE", ToJson([k |-> "build", sh |-> "generic", st |-> w, parts |-> TsParts,
+                             out |-> Outcome(BuildF(Generic, w, TsParts, LowerTab)), jerr |-> FALSE,
+                             rt |-> IF BuildF(Generic, w, TsParts, LowerTab).ok THEN BuildF(Generic, w, TsParts, LowerTab).v ELSE <<>>])>>)
 
 EmitNames == (MODE = "names" /\ w # <<>>) =>
    /\ PrintT(<<"CASE", ToJson([k |-> "parse", s |-> RawStr, gj |-> Judge(RawStr, Generic, LowerTab), go |-> Outcome(OutGen),
